@@ -51,7 +51,7 @@ Section Launch.
   Hypothesis Hinf : lc_infinite c = true.
   Hypothesis Hang : lc_angle c = true.
   Let E := lc_EPD c.
-  Let offset := lc_EPD c - lc_minpos c.
+  Let offset := lc_offset c.
   Let D := offset + lc_EPL c.
   Let dz := lc_EPL c - (lc_pos1 c - offset).
 
@@ -68,9 +68,9 @@ Section Launch.
   Proof.
     unfold launch, ray_origins. rewrite Hinf, Hang. unfold radians. rops.
     unfold launch_mag, launch_X, launch_Y, dz, D, offset, E, rad.
-    set (X := tan (lc_maxfield c * Hx * PI / 180) * (lc_EPD c - lc_minpos c + lc_EPL c)).
-    set (Y := - tan (lc_maxfield c * Hy * PI / 180) * (lc_EPD c - lc_minpos c + lc_EPL c)).
-    set (Z := lc_EPL c - (lc_pos1 c - (lc_EPD c - lc_minpos c))).
+    set (X := tan (lc_maxfield c * Hx * PI / 180) * (lc_offset c + lc_EPL c)).
+    set (Y := - tan (lc_maxfield c * Hy * PI / 180) * (lc_offset c + lc_EPL c)).
+    set (Z := lc_EPL c - (lc_pos1 c - lc_offset c)).
     replace (Px * lc_EPD c * (1 - vx) / 2 - (Px * lc_EPD c / 2 * (1 - vx) + X)) with (- X) by field.
     replace (Py * lc_EPD c * (1 - vy) / 2 - (Py * lc_EPD c / 2 * (1 - vy) + Y)) with (- Y) by field.
     replace (- X * - X + - Y * - Y + Z * Z) with (X * X + Y * Y + Z * Z) by ring.
@@ -127,7 +127,7 @@ End Launch.
 Theorem tilt_matches_launch :
   forall (c : launchcfg ROps) (w Hy dx dy vx vy p q nobj : R) (r r0 : ray ROps),
     lc_infinite c = true -> lc_angle c = true -> lc_pos1 c = 0 ->
-    0 < lc_EPD c - lc_minpos c + lc_EPL c -> 0 < cos (rad (lc_maxfield c * Hy)) ->
+    0 < lc_offset c + lc_EPL c -> 0 < cos (rad (lc_maxfield c * Hy)) ->
     launch c w 0 Hy (scaled (O:=ROps) dx vx) (scaled (O:=ROps) dy vy) vx vy = Some r ->
     launch c w 0 Hy (scaled (O:=ROps) 0 vx) (scaled (O:=ROps) 0 vy) vx vy = Some r0 ->
     k_wf_tilt_xy ROps p 0 0 "angle" 0 Hy (lc_maxfield c) vx vy (lc_EPD c) nobj
@@ -163,18 +163,30 @@ Theorem height_fields_no_correction :
     k_wf_tilt_xy ROps opd 0 0 "object_height" f0 f1 maxf vx vy E nobj = opd.
 Proof. intros. split; [apply tilt_dist_other|apply tilt_xy_other]; reflexivity. Qed.
 
+(** the launch plane is in front of the entrance pupil by at least its diameter (after the repair of
+    RayGenerator._get_starting_z_offset): the side condition of the theorems above holds for every EPD > 0 *)
+Theorem launch_distance_positive :
+  forall c : launchcfg ROps, 0 < lc_EPD c -> 0 < lc_offset c + lc_EPL c.
+Proof.
+  intros c H. unfold lc_offset. rops. unfold Rltb.
+  destruct (Rlt_dec (lc_EPL c) (lc_minpos c)); lra.
+Qed.
+
 (** hypotheses are satisfiable: EPD 10, stop at the first surface (EPL = 0), first surface at z = 0,
     largest field 30 degrees, on-axis-in-x field Hy = 1, pupil point (0, 1) *)
 Definition lc_example : launchcfg ROps := mkLC (O:=ROps) true true 30 10 0 0 0 0 0.
+Lemma lc_offset_example : lc_offset lc_example = 10.
+Proof. unfold lc_offset. rops. cbn [lc_EPD lc_EPL lc_minpos lc_example]. unfold Rltb. destruct (Rlt_dec 0 0); lra. Qed.
+
 Example tilt_matches_launch_example :
   exists r r0,
     launch lc_example (55/100) 0 1 (scaled (O:=ROps) 0 0) (scaled (O:=ROps) 1 0) 0 0 = Some r /\
     launch lc_example (55/100) 0 1 (scaled (O:=ROps) 0 0) (scaled (O:=ROps) 0 0) 0 0 = Some r0 /\
-    0 < lc_EPD lc_example - lc_minpos lc_example + lc_EPL lc_example /\
+    0 < lc_offset lc_example + lc_EPL lc_example /\
     0 < cos (rad (lc_maxfield lc_example * 1)).
 Proof.
   rewrite !(launch_inf_unfold lc_example eq_refl eq_refl). do 2 eexists. split; [reflexivity|]. split; [reflexivity|].
-  cbn [lc_EPD lc_minpos lc_EPL lc_maxfield lc_example]. split; [lra|].
+  split; [rewrite lc_offset_example; cbn [lc_EPL lc_example]; lra|]. cbn [lc_maxfield lc_example].
   replace (rad (30 * 1)) with (PI / 6) by (unfold rad; field).
   rewrite cos_PI6. apply Rdiv_lt_0_compat; [apply sqrt_lt_R0|]; lra.
 Qed.
